@@ -29,7 +29,7 @@ ASSUMPTIONS = ["float64 only; central differences along random unit directions w
                "absolute; a mismatch must persist for h/10 and 10h (a kink of a piecewise-linear criterion inside the stencil does not)",
                "smooth activations only (a ReLU kink is not a generic parameter point)"]
 PROBES = ["fd_frozen", "fd_replay", "prev_hedge_in_loss", "cost_positive", "H2", "criterion_parameter", "after_fit", "no_graph_price",
-          "no_graph_loss", "ambient_enable_grad", "ambient_no_grad", "graph_monitor", "fd_retry_other_h", "listed_hedge", "n_times_ge2"]
+          "no_graph_loss", "ambient_enable_grad", "ambient_no_grad", "graph_monitor", "fd_retry_other_h", "listed_hedge", "n_times_ge2", "eval_mode"]
 CRITS = ["EntropicRiskMeasure", "ExpectedShortfall", "QuadraticCVaR", "EntropicLoss", "IsoelasticLoss", "OCE", "MSELoss", "L1Loss"]
 
 
@@ -64,7 +64,7 @@ def generate(rng):
         ops.append({"op": "simulate", "n_paths": n, "torch_seed": rng.seed31()})
     for _ in range(rng.randint(2, 5)):
         k = rng.wchoice([("fd_frozen", 4), ("fd_replay", 4), ("no_graph", 2), ("seam", 1)])
-        op = {"op": k, "hedge": hedge, "seed": rng.seed31()}
+        op = {"op": k, "hedge": hedge, "seed": rng.seed31(), "mode": rng.choice(["train", "train", "eval"])}
         if k == "fd_replay":
             op.update({"n_paths": rng.choice([2, 3, 5]), "n_times": rng.choice([1, 1, 2]), "torch_seed": rng.seed31()})
         if k == "no_graph":
@@ -224,7 +224,12 @@ def _execute(program, stats, hist):
                 stats.fault("F7_rng_replay")
                 if op["n_times"] >= 2:
                     stats.probe("n_times_ge2")
-            h.train()
+            # gradients must be right in either module mode (a hedger is left in eval mode by fit(validation=True))
+            if op.get("mode") == "eval":
+                h.eval()
+                stats.probe("eval_mode")
+            else:
+                h.train()
             try:
                 did = _fd_check(h, loss_fn, op["seed"], site, cfg, stats, seq)
             except (Violation, Inconclusive):
